@@ -126,7 +126,7 @@ def r10_1_buffer(chk):
         chk.require(entails(cons, eq(hi - lo, vlen)), "R10.1", f"slice-length==record-length:{tag}",
                     "the target slice has a different length than the record: the bytearray resizes and earlier or "
                     "later bytes are shifted / lost", where, witness=SegmentModel.witness(cons, [lt(hi - lo, vlen)])
-                    or SegmentModel.witness(cons, [gt(hi - lo, vlen)]))
+                    | SegmentModel.witness(cons, [gt(hi - lo, vlen)]))
         chk.require(entails(cons, ge(lo, 0)) and entails(cons, le(hi, blen)), "R10.1", f"slice-inside-buffer:{tag}",
                     "the record is copied beyond the end of the buffer", where,
                     witness=SegmentModel.witness(cons, [gt(hi, blen)]))
@@ -134,7 +134,7 @@ def r10_1_buffer(chk):
         exp_lo = LinExpr.c(0) if writes else filled
         chk.require(entails(cons, eq(lo, exp_lo)), "R10.1", f"copied-after-buffered-bytes:{tag}",
                     "the record is not placed right after the bytes already buffered", where,
-                    witness=SegmentModel.witness(cons, [gt(lo, exp_lo)]) or SegmentModel.witness(cons, [lt(lo, exp_lo)]))
+                    witness=SegmentModel.witness(cons, [gt(lo, exp_lo)]) | SegmentModel.witness(cons, [lt(lo, exp_lo)]))
         nf = s.fields(buf)[names["filled"]]
         exp = (ell if writes else filled + ell)
         chk.require(isinstance(nf, IntV) and entails(s.cons, eq(nf.e, exp)), "R10.1", f"filled-updated:{tag}",
